@@ -439,6 +439,22 @@ class NamedObject:
         raise FieldReassignError( f"{type(x).__name__} object {x!r} in the hierarchy of {type(s).__name__} has no name: "
                                    "it was added to a list after the list had been assigned to a field.\n"
                                    "Suggestion: build the list first, then assign it ( s.x = [ ... ] ), or use s.x += [ obj ]." )
+    # A list that was reordered or shortened in place after it had been
+    # assigned ( s.x.reverse(), del s.x[0] ): the names of its elements no
+    # longer say where they are
+    for x in s._dsl.all_named_objects:
+      for name in getattr( x._dsl, "NamedObject_fields", () ):
+        lst = x.__dict__.get( name )
+        if isinstance( lst, list ):
+          Q = deque( (u, (i,)) for i, u in enumerate(lst) )
+          while Q:
+            u, indices = Q.popleft()
+            if isinstance( u, list ):
+              Q.extend( (v, indices+(i,)) for i, v in enumerate(u) )
+            elif isinstance( u, NamedObject ) and hasattr( u._dsl, "full_name" ) and \
+                 u._dsl.parent_obj is x and u._dsl._my_name == name and u._dsl._my_indices != indices:
+              raise FieldReassignError( f"{u!r} now sits at position {''.join( f'[{i}]' for i in indices )} of list field {name} "
+                                        f"of top{repr(x)[1:]}: the list was changed in place after it had been assigned." )
 
   def elaborate( s ):
     s._elaborate_construct()
